@@ -27,7 +27,9 @@ func layerCleanRel(name string) (string, bool) {
 	return filepath.Clean(name), true
 }
 
-func pathIsOrUnder(p, anc string) bool { return anc == "." || p == anc || strings.HasPrefix(p, anc+"/") }
+func pathIsOrUnder(p, anc string) bool {
+	return anc == "." || p == anc || strings.HasPrefix(p, anc+"/")
+}
 
 func oracleLayerSpec(c *FsCase, before, after *Outcome, out string) []Problem {
 	if c.Op != "layer" || out != "ok" || worldHasSymlink(before) {
